@@ -370,7 +370,10 @@ def _run_case(spec):
                     kw2 = {'input_shape': in_shapes[0]} if len(in_shapes) == 1 else {'input_example': example}
                     with torch.no_grad():
                         e.eval()
-                        pit2 = PIT(e, **kw2).eval()
+                        # (grouped convolutions PIT does not convert stay excluded, as in the first import)
+                        grouped = [nm for nm, m_ in e.named_modules() if isinstance(m_, (torch.nn.Conv1d, torch.nn.Conv2d))
+                                   and m_.groups > 1 and not (m_.groups == m_.in_channels == m_.out_channels)]
+                        pit2 = PIT(e, exclude_names=grouped, **kw2).eval()
                         pitgen.set_masks(pit2, rng, 'mixed')
                         z2 = pitgen.merge_out(pit2(*xs))
                         e2 = pit2.export().eval()
